@@ -432,15 +432,24 @@ func c48Scn_(name string) *c48Scn {
 		}
 		defer os.RemoveAll(filepath.Dir(sb))
 		files := map[string]string{}
+		links := map[string]string{}
 		filepath.Walk(sb, func(p string, fi os.FileInfo, err error) error {
-			if err == nil && fi.Mode().IsRegular() {
+			if err != nil {
+				return nil
+			}
+			rel, _ := filepath.Rel(sb, p)
+			switch {
+			case fi.Mode().IsRegular():
 				b, _ := os.ReadFile(p)
-				rel, _ := filepath.Rel(sb, p)
 				files[rel] = string(b)
+			case fi.Mode()&os.ModeSymlink != 0: // the post-crash state keeps its symbolic links
+				if l, err := os.Readlink(p); err == nil {
+					links[rel] = l
+				}
 			}
 			return nil
 		})
-		d = &c48Scn{Name: name, Cmd: base.Cmd, Files: files, Args: base.Args, Targets: base.Targets, Thorough: base.Thorough}
+		d = &c48Scn{Name: name, Cmd: base.Cmd, Files: files, Links: links, Args: base.Args, Targets: base.Targets, Thorough: base.Thorough}
 		c48refMu.Lock()
 		c48derived[name] = d
 		c48refMu.Unlock()
